@@ -446,6 +446,8 @@ func runC11(c *an.Ctx) {
 	// operation on a byte is dominated by a range test that confines the byte to A-Z or a-z.  Unguarded, it also
 	// rewrites @ [ \\ ] ^ _ and control bytes, and a folded bucket index no longer finds needles containing them.
 	c11FoldArithmetic(c, "R3", "internal/operators")
+	// literals are built from whole runes: no rune of a pattern literal is narrowed to a byte
+	runeToByte(c, "R3", "internal/operators")
 	// trie words are never dropped: trieReconstruct filters the glued words by length, which is harmless only as
 	// long as every suffix is a non-empty string (prefix >= 1 byte + suffix >= 1 byte).  Invariant, by induction
 	// over the two mutually recursive extractors: every string they return is non-empty.
